@@ -609,7 +609,7 @@ def run(ctx):
             if got >= 40:
                 break
         kinds[kind] = got
-        if got == 0:
+        if got == 0 and not ctx.violations:     # with violations around, accepted traces may be too few to host every kind
             raise MachineryError("no trace offered a place for the negative control %s" % kind)
     ctx.negative_controls("ProteinGroupsTrace", "Trace.cfg", badtr,
                           name="protein moved to another group / dropped from its groups / dropped from one group in "
